@@ -1,6 +1,5 @@
 """C05 — beacon DKG fate: members keep group membership only as the chain decided."""
 META = {
-    "disabled": True,
     "level": "model_checking",
     "text": "TLC exhaustively checks a model of ExecuteDKG's tail (publish ok/failed, wait for the on-chain result or the timeout "
             "block, key comparison, misbehaved list, rebuilt operating set, resolveGroupOperators) over every local GJKR outcome, "
